@@ -533,7 +533,8 @@ def c07_matrix(cfg_line, seed=1, sample=None):
     U = ul
     half = ALL_START_MECHS[::2]
     other = ALL_START_MECHS[1::2]
-    lists = {"none": "", "A": " 40000600=" + "".join(U(m) for m in half), "B": " 40000600=" + "".join(U(m) for m in other)}
+    # C: a NON-EMPTY list naming only mechanisms this token does not offer (CKM_AES_OFB, a vendor mechanism): such a key may be used with nothing
+    lists = {"none": "", "A": " 40000600=" + "".join(U(m) for m in half), "B": " 40000600=" + "".join(U(m) for m in other), "C": " 40000600=" + U(0x2104) + U(0x80000001)}
     keys = []      # (ref, kind)
     for flag in (0, 1):
         f = f"{flag:02x}"
